@@ -218,6 +218,28 @@ def run(ctx):
                 ctx.violation("%s: the command failed (exit %s) and the .inkfemsol at that path (%d bytes) is not a complete record: %s" % (what, last[1], len(left), parse_sol(left)),
                               {"history": [" ".join(x) if isinstance(x, list) else "rewrite " + x[1] for x in steps], "text": start, "mechanism": mech.text()})
                 concrete += 1
+    # solve -p writes two files at the same time: whichever of the two writers comes first, the .inkfemsol holds the solution and
+    # nothing else (the preprocessed dump belongs in the .inkfempre)
+    if small is not None:
+        for sched in ("late", "early", None):
+            for st in (small, big):
+                rp = cli.run(ctx, ["solve", "-p", "x.inkfem"], files={"x.inkfem": st.text()}, env={"VERIF_WRITER": sched} if sched else {}, name="c11p", timeout=300)
+                sol = rp.files.get("x.inkfemsol")
+                if rp.status != 0 or sol is None:
+                    continue
+                parsed = parse_sol(sol)
+                bad = None
+                if isinstance(parsed, str):
+                    bad = "is not well-formed: " + parsed
+                elif [b["ID"] for b in parsed[2]] != [b["id"] for b in st.bars] and sorted(b["ID"] for b in parsed[2]) != sorted(b["id"] for b in st.bars):
+                    bad = "lists bars %s, the structure has %s" % ([b["ID"] for b in parsed[2]][:8], [b["id"] for b in st.bars][:8])
+                elif not (rp.files.get("x.inkfempre") or "").startswith("inkfem v"):
+                    bad = "is there, the .inkfempre written next to it is empty or missing"
+                if bad:
+                    ctx.violation("solve -p (writer %s): the .inkfemsol %s" % (sched or "free", bad),
+                                  {"args": ["solve", "-p", "x.inkfem"], "env": {"VERIF_WRITER": sched}, "text": st.text(), "sol_text": sol[:3000]})
+                    concrete += 1
+                    break
     # a preprocessed file kept from another release: the solution file still starts with THIS program's version
     if small is not None:
         log2, fs2 = C12.cli_history(ctx, [["pre", "x.inkfem"]], {"x.inkfem": small.text()}, name="c11v")
